@@ -1013,7 +1013,8 @@ class BeaconConfig:
             ]
         """
         domains = self.raw_settings.get("SETTING_DOMAINS")
-        if not isinstance(domains, bytes):
+        if not isinstance(domains, bytes) or not null_terminated_str(domains):
+            # not defined, or an empty list (SMB and TCP beacons)
             return []
         return list(grouper(null_terminated_str(domains).split(","), 2))
 
